@@ -115,7 +115,7 @@ class Controller:
         os.write(p2[1], bytes([self.announce[0]]))
         os.write(p4[1], bytes([self.announce[1]]))
         self.set_controls(concurrencylocal=str(self.conc[0]), concurrencyremote=str(self.conc[1]))
-        self.emit({"c": "ctl", "op": "start", "conc": list(self.conc), "announce": list(self.announce)})
+        self.emit({"c": "ctl", "op": "start", "conc": list(self.conc), "announce": list(self.announce), "life": getattr(self, "lifetime", 604800)})
         cl = subprocess.Popen([self.tree.bin("qmail-clean")], preexec_fn=pre_clean, env=self.env("clean"), close_fds=False, stderr=subprocess.DEVNULL)
         sd = subprocess.Popen([self.tree.bin("qmail-send")], preexec_fn=pre_send, env=self.env("send"), close_fds=False, stderr=subprocess.DEVNULL)
         self.chan = {"lcmd": p1[0], "lrep": p2[1], "rcmd": p3[0], "rrep": p4[1]}
